@@ -132,6 +132,7 @@ pub fn vmrun_main(path: &str) -> i32 {
 
 fn soundness_case(ctx: &mut Ctx, g: &Gram, specs: &[InputSpec]) -> Result<(), Fail> {
     let text = print_grammar(g);
+    ctx.inflight(&case_json(&text, "", ""));
     ctx.class("soundness:generated");
     let c = match compile(&text) {
         Ok(c) => c,
@@ -189,6 +190,18 @@ fn soundness_case(ctx: &mut Ctx, g: &Gram, specs: &[InputSpec]) -> Result<(), Fa
 /// A terminal that begins by matching at least one character: non-empty literal, range, or a
 /// single-character built-in.
 fn leading_terminal() -> impl Strategy<Value = GE> {
+    (bare_leading_terminal(), 0u8..10, 1u32..=2, 0u32..=2).prop_map(|(t, form, m, d)| match form {
+        // "begins by matching at least one character through a non-empty literal, a range or a
+        // single-character built-in": also when that terminal is repeated at least once
+        0 => GE::RepOnce(Box::new(t)),
+        1 => GE::RepExact(Box::new(t), m),
+        2 => GE::RepMin(Box::new(t), m),
+        3 => GE::RepMinMax(Box::new(t), m, m + d),
+        _ => t,
+    })
+}
+
+fn bare_leading_terminal() -> impl Strategy<Value = GE> {
     prop_oneof![
         Just(GE::Str("a".into())),
         Just(GE::Str("ab".into())),
@@ -214,9 +227,19 @@ fn make_well_formed(g: &mut Gram, terms: &[GE]) {
         *k += 1;
         terms[*k % terms.len()].clone()
     };
+    fn consuming(e: &GE) -> bool {
+        match e {
+            GE::Str(s) | GE::Insens(s) => !s.is_empty(),
+            GE::Range(..) => true,
+            GE::Builtin(n) => *n != "SOI" && *n != "EOI" && *n != "NEWLINE",
+            GE::RepOnce(x) => consuming(x),
+            GE::RepExact(x, n) | GE::RepMin(x, n) | GE::RepMinMax(x, n, _) => *n >= 1 && consuming(x),
+            _ => false,
+        }
+    }
     fn starts_ok(e: &GE) -> bool {
         match e {
-            GE::Seq(a, _) => matches!(**a, GE::Str(ref s) | GE::Insens(ref s) if !s.is_empty()) || matches!(**a, GE::Range(..)) || matches!(**a, GE::Builtin(n) if n != "SOI" && n != "EOI" && n != "NEWLINE"),
+            GE::Seq(a, _) => consuming(a),
             _ => false,
         }
     }
@@ -262,6 +285,7 @@ fn make_well_formed(g: &mut Gram, terms: &[GE]) {
 
 fn completeness_case(ctx: &mut Ctx, g: &Gram) -> Result<(), Fail> {
     let text = print_grammar(g);
+    ctx.inflight(&json!({"config": config_name(), "direction": "completeness", "grammar": text, "rule": "", "input": ""}));
     ctx.eval();
     ctx.class("completeness:generated");
     if has_cycle(g) && has_repetition(g) {
@@ -397,6 +421,6 @@ pub const DEF: CheckDef = CheckDef {
     shards: |_| 16,
     run,
     replay,
-    journal: false,
+    journal: true,
     pre: None,
 };
